@@ -5,7 +5,7 @@ quadratic grid), each rung's stored field (captured by the icontract postconditi
 and flux recovery compared with the exact solution of the documented boundary-value problem:
 the Fourier series when diffusivity is constant, the harness's own method-of-lines solver when it
 depends on pressure. "Converges" is restated as a bounded claim: error <= K / nx at every rung
-and the finest rung's error <= 0.35 x the coarsest's.
+and the finest rung's error <= 0.5 x the coarsest's (recovery; 0.6 for the field).
 """
 
 from __future__ import annotations
@@ -33,8 +33,8 @@ WATCHDOG_S = {"quick": 900, "thorough": 7200}
 GENERATOR = {"nx": "25, 50, 100, 200 (+400 thorough)", "r": [4, 8, 16], "t_end": "[3, 12]", "p_f/p_i": "0.05..0.999"}
 ASSUMPTIONS = [
     "first-order constants calibrated on the repaired tree with >= 1.5x head-room: K = K0 + 2.0 "
-    "(sqrt(t_end)/r) (1 + 0.45 log2(nx/25)); K0 = 1.5 (recovery, Fourier), 2.5 (field, Fourier), "
-    "3.5 max(1, chi/8) (method of lines; chi = diffusivity contrast on [m_f, m_i])",
+    "(sqrt(t_end)/r) (1 + 0.45 log2(nx/25)); K0 = 2.0 (recovery, Fourier), 3.0 (field, Fourier), "
+    "4.0 max(1, chi/8) (method of lines; chi = diffusivity contrast on [m_f, m_i])",
     "node j of the single-phase mesh is compared at x = (j + 1)/nx, the ideal mesh at x = (j + 1)/nx "
     "as well: an O(1/nx) re-indexing is inside the first-order bound by construction",
     "reference models: vf/refmodels/diffusion.py (Fourier series 400 / 2000 terms; MOL 800 / 1600 nodes, BDF rtol 1e-8)",
@@ -148,7 +148,7 @@ def run_case(ck, desc):
         else:
             errs_rec.append(float(np.max(np.abs(rf))))  # p_f = 0 handled by plateau = 1 above; p_f = p_i: rf == 0
         errs_fld.append(float(fld))
-    K0r, K0f = (1.5, 2.5) if ref == "fourier" else (3.5 * max(1.0, chi / 8), 3.5 * max(1.0, chi / 8))
+    K0r, K0f = (2.0, 3.0) if ref == "fourier" else (4.0 * max(1.0, chi / 8), 4.0 * max(1.0, chi / 8))
     ok_ref = True
     if ref == "mol":
         ck.note_max("mol_self_consistency_over_R", selfc)
@@ -162,7 +162,7 @@ def run_case(ck, desc):
             if not ck.margin(f"field error <= K/nx ({ref})", ef, K(K0f, t_end, r, nx) / nx):
                 ck.violation("first-order-field-error", {"nx": nx, "error": ef, "bound": K(K0f, t_end, r, nx) / nx, "errors_all_rungs": errs_fld, "ref": ref, "chi": chi}, desc)
         if errs_rec[0] > 1e-4:
-            if not ck.margin("recovery error shrinks: finest/coarsest <= 0.35", errs_rec[-1] / errs_rec[0], 0.35):
+            if not ck.margin("recovery error shrinks: finest/coarsest <= 0.5", errs_rec[-1] / errs_rec[0], 0.5):
                 ck.violation("error-shrinks-under-refinement", {"what": "recovery", "errors": errs_rec}, desc)
         if errs_fld[0] > 1e-4:
             if not ck.margin("field error shrinks: finest/coarsest <= 0.6", errs_fld[-1] / errs_fld[0], 0.6):
